@@ -114,19 +114,33 @@ CHECKS = {
             "Assumes Random.randint is uniform (the model takes the drawn integers as an argument). networkx "
             "(digraph, dag_longest_path_length) is outside the model: maximum_word_length is a specification model. "
             "Demonstrates DESIGN section 8 row 7 on the unchanged tree (iterating an empty language raises).", "7/C13"),
-    "C20": ("Coq state-machine model of the DFA object (definition + count cache + word cache + cached_method memos) with an "
-            "invariant proof over arbitrary query histories + differential correspondence: random histories on one instance vs a "
-            "fresh copy vs the model",
+    "C20": ("Coq state-machine models of the DFA object (definition + count cache + word cache + cached_method memos) and of NFA "
+            "instances (one memo per live instance: the table of `_get_lambda_closures`, the only thing an NFA caches) with "
+            "invariant proofs over arbitrary query histories + differential correspondence: random histories on one instance vs a "
+            "fresh copy vs the model (answers, and for NFAs the memo itself after every query)",
             "Proved for all valid DFAs and all finite histories (unbounded length) of count / words / abandoned words generator / "
             "random_word / cardinality / min / max / isempty / isfinite / abandoned iteration / clear_cache: every stored cache "
             "level equals the from-scratch level, every memo is empty or holds the stateless answer (cache_inv, kept by every "
             "step), hence the answer to any query after any history equals the stateless C13 answer (C20_history_independent), "
-            "in particular shorter-after-longer lengths and answers after clear_cache.",
-            "Not in the model (compared against a fresh object by the harness only): accepts_input, ==, <=, successor(s), "
-            "NFA queries (accepts_input, partially consumed read_input_stepwise, ==, DFA.from_nfa - the latter also checked "
-            "with the verified NFA/DFA comparator, eliminate_lambda, reverse). Python object identity / generator "
-            "suspension semantics are modelled (an abandoned generator = the effects up to its n-th item), not verified. "
-            "cached_method raises RuntimeError when called on a temporary object (third-party behaviour, outside the property).",
+            "in particular shorter-after-longer lengths and answers after clear_cache. "
+            "Proved for every list of NFA definitions (instances) and all finite histories of accepts_input / read_input_stepwise "
+            "abandoned after n items / == between two instances (fills both memos) / DFA.from_nfa (minify or not) / eliminate_lambda / "
+            "reverse: a memo, when filled, holds the closure table computed from scratch (memo_inv, kept by every step; the model "
+            "consults the table when present and fills it when absent, exactly where the code calls _get_lambda_closures), hence "
+            "every answer after any history equals the answer with all tables recomputed = the first call on fresh instances "
+            "(C20_nfa_history_independent, C20_nfa_same_as_first_call); for valid NFAs these answers are literally the answers of the "
+            "stateless C01 reader, the C09 Hopcroft-Karp model, the C07 subset construction (+ minimisation), the C07/C08 "
+            "eliminate_lambda and reverse models (C20_nfa_answers_are_stateless_models: congruence of the worklist closure, "
+            "_expand_dfa, the union-find loop and _eliminate_lambda under closure functions that agree on the states), hence "
+            "tied to the languages (C20_nfa_language_after_any_history).",
+            "Not in the model (compared against a fresh object by the harness only): DFA accepts_input, ==, <=, successor(s); "
+            "NFA operations other than the six above (union, concatenate, ... never call _get_lambda_closures except through "
+            "these). A table lookup of a name without an entry (KeyError in Python, impossible for a valid NFA) is the empty set "
+            "in the total lookups of the model. == across different alphabets is Err Mismatch in the model (Python: "
+            "NotImplemented, then False), as in C09. retain_names changes state names only and is ignored by the model. Python "
+            "object identity / generator suspension semantics are modelled (an abandoned generator = the effects up to its n-th "
+            "item), not verified. cached_method raises RuntimeError when called on a temporary object (third-party behaviour, "
+            "outside the property).",
             "7/C20"),
     "C05": ("Coq theorems about two models of DFA.minify / DFA.to_partial(minify=True): a specification model (state selection, "
             "implicit trap, Moore signature refinement to the coarsest finality-respecting congruence, quotient) and a mirror model of "
